@@ -31,6 +31,11 @@ star projections) — the declarative relation; decider `Ty.isSubD`, sound for `
 * `relatedUnbounded_partial`: argument vectors chosen position-wise by declaration-site variance
   (or inside a use-site projection) give declarative subtypes: the unbounded case of
   `_construct_related_types`.
+* `candidateArgs_sound`: the candidate arguments `_find_candidate_type_args` offers for a position
+  (model `candidateArgs`, direction flags `candDirSelf` / `candDirProj`) are contained in the query's
+  argument, given that the nested searches keep their promise; `irrelevantParam_neq`: the answer of
+  `get_irrelevant_parameterized_type` (model `irrelevantParam`) is never `==` an instantiation with
+  the relevant argument list (so never the query itself).
 * `finding_generic_subclass`, `finding_same_constructor`, `finding_top_type`: the two witnessed answers of
   `find_irrelevant_type` (replayed on the real code by the harness) are rejected by the checker,
   hence genuine violations.
@@ -453,5 +458,134 @@ theorem relatedUnbounded_partial (U : Ty → Prop) (nm nm' : String) (con : Ty) 
 example (U : Ty → Prop) : RelArgs U (conParams prodC) [fooT] [anyT] :=
   RelArgs.cons (RelArg.co (by decide) (by decide) (by decide)
     (SubT.nominal (by rw [show fooT.sups = [anyT] from rfl]; exact List.mem_singleton.2 rfl))) RelArgs.nil
+
+/-! ## 7. The candidate arguments of a related instantiation; the irrelevant instantiation -/
+
+/-- what the answer `ans` of a nested search `_find_types(e, get_subtypes = d, include_self)`
+    promises: every element is `e` itself, or a proper type on the requested side of `e` -/
+def AnsOK (U : Ty → Prop) (e : Ty) (d : Bool) (ans : List Ty) : Prop :=
+  ∀ r ∈ ans, beq r e = true ∨
+    (isWild r = false ∧ isWild e = false ∧ (if d then SubT U r e else SubT U e r))
+
+theorem candDirProj_some {base bd : Ty} {d : Bool}
+    (h : candDirProj base true false = some (bd, d)) :
+    (base = wild 1 (some bd) ∧ d = true) ∨ (base = wild 2 (some bd) ∧ d = false) := by
+  unfold candDirProj at h
+  simp only [Bool.false_eq_true, if_false] at h
+  split at h
+  · simp only [Option.some.injEq, Prod.mk.injEq] at h
+    obtain ⟨rfl, rfl⟩ := h
+    exact Or.inl ⟨rfl, rfl⟩
+  · simp only [Bool.not_true, Option.some.injEq, Prod.mk.injEq] at h
+    obtain ⟨rfl, rfl⟩ := h
+    exact Or.inr ⟨rfl, rfl⟩
+  · cases h
+
+/-- **`_find_candidate_type_args`, subtype direction.**  If the nested searches keep their
+    promise (`AnsOK`: each returns the queried type or proper types on the requested side), every
+    candidate argument the function offers for a position is *contained* in the query's argument
+    at that position (`Cont`: equal; below / above it for a covariant / contravariant parameter;
+    inside the use-site projection) — so whichever candidate `random.choice` draws, the position
+    is sound for a subtype of the query.  The direction flags of the model (`candDirSelf`,
+    `candDirProj`) are what the harness compares with the recorded nested calls. -/
+theorem candidateArgs_sound (U : Ty → Prop) (tp base : Ty) (selfAns projAns : List Ty)
+    (hv : variance tp ≤ 2) (hreg : beq base base = true)
+    (hself : ∀ d, candDirSelf (variance tp) true false = some d → AnsOK U base d selfAns)
+    (hproj : ∀ bd d, candDirProj base true false = some (bd, d) →
+      ∀ r ∈ projAns, isWild r = false ∧ (if d then SubT U r bd else SubT U bd r)) :
+    ∀ b ∈ candidateArgs (variance tp) base true false selfAns projAns, Cont U tp b base := by
+  have hT : ∀ b ∈ (match candDirSelf (variance tp) true false with
+      | some _ => selfAns | none => [base]), Cont U tp b base := by
+    intro b hb
+    cases hd : candDirSelf (variance tp) true false with
+    | none =>
+      rw [hd] at hb
+      simp only [List.mem_singleton] at hb
+      subst hb
+      exact Cont.same hreg
+    | some d =>
+      rw [hd] at hb
+      rcases hself d hd b hb with h | ⟨h1, h2, h3⟩
+      · exact Cont.same h
+      · have hv3 : variance tp = 0 ∨ variance tp = 1 ∨ variance tp = 2 := by omega
+        rcases hv3 with h0 | h0 | h0
+        · simp [candDirSelf, h0] at hd
+        · simp [candDirSelf, h0] at hd
+          subst hd
+          exact Cont.declCo h0 h1 h2 (by simpa using h3)
+        · simp [candDirSelf, h0] at hd
+          subst hd
+          exact Cont.declContra h0 h1 h2 (by simpa using h3)
+  intro b hb
+  unfold candidateArgs at hb
+  simp only at hb
+  cases hp : candDirProj base true false with
+  | none =>
+    rw [hp] at hb
+    exact hT b hb
+  | some c =>
+    obtain ⟨bd, d⟩ := c
+    rw [hp] at hb
+    have hpr := hproj bd d hp
+    rcases candDirProj_some hp with ⟨rfl, rfl⟩ | ⟨rfl, rfl⟩
+    · simp only [List.mem_append, List.mem_map] at hb
+      rcases hb with hb | hb | ⟨r, hr, rfl⟩
+      · exact hT b hb
+      · obtain ⟨h1, h2⟩ := hpr b hb
+        exact Cont.useOut h1 (by simpa using h2)
+      · obtain ⟨_, h2⟩ := hpr r hr
+        exact Cont.outOut (by simpa using h2)
+    · simp only [List.mem_append] at hb
+      rcases hb with hb | hb
+      · exact hT b hb
+      · obtain ⟨h1, h2⟩ := hpr b hb
+        exact Cont.useIn h1 (by simpa using h2)
+
+def barT : Ty := simple "Bar" [fooT]
+/-- `class Sink<in T>` queried as `Sink<in Bar>`: the searches go UP from `Bar` (both the one for
+    the argument — which for a projection returns the projection itself — and the one for its
+    bound); the candidates are `in Bar`, `Bar`, `Foo`, `Any` -/
+example : (candidateCalls 2 (wild 2 (some barT)) true false).map (fun c => (getName c.1, c.2)) =
+    [("*", false), ("Bar", false)] := by decide
+example : (candidateArgs 2 (wild 2 (some barT)) true false [wild 2 (some barT)] [barT, fooT, anyT]).map getName
+    = ["*", "Bar", "Foo", "Any"] := by decide
+/-- the hypotheses of `candidateArgs_sound` are met by that instance -/
+example (U : Ty → Prop) : AnsOK U (wild 2 (some barT)) false [wild 2 (some barT)] ∧
+    ∀ r ∈ [barT, fooT], isWild r = false ∧ SubT U barT r := by
+  refine ⟨fun r hr => Or.inl (by rw [List.mem_singleton.1 hr]; decide), fun r hr => ?_⟩
+  rcases List.mem_cons.1 hr with rfl | hr
+  · exact ⟨rfl, SubT.refl (by decide)⟩
+  · rw [List.mem_singleton.1 hr]
+    exact ⟨rfl, SubT.nominal (by rw [show barT.sups = [fooT] from rfl]; exact List.mem_singleton.2 rfl)⟩
+
+theorem beq_param_args_false {n nm : String} {con c : Ty} {as bs sp ss : List Ty}
+    (h : beqL as bs = false) : beq (param n con as sp) (param nm c bs ss) = false := by
+  cases con <;> cases c <;> simp [beq, h]
+
+/-- **`get_irrelevant_parameterized_type` never returns the instantiation it started from**: an
+    answer is an instantiation of the constructor whose argument list differs (by the IR's `==`)
+    from the relevant one, hence is not `==` to any instantiation carrying the relevant arguments
+    — in particular not to the query itself when the constructor is the query's. -/
+theorem irrelevantParam_neq (con : Ty) (typeArgs : List Ty) (choices : List (Option Ty)) (r : Ty)
+    (h : irrelevantParam con typeArgs choices = some r) :
+    ∃ new, r = tconNew con new ∧ beqL new typeArgs = false ∧
+      ∀ nm c ss, beq r (param nm c typeArgs ss) = false := by
+  unfold irrelevantParam at h
+  simp only at h
+  split at h
+  · cases h
+  · rename_i hne
+    simp only [Option.some.injEq] at h
+    subst h
+    have hne' : beqL (irrNewArgs typeArgs choices) typeArgs = false := by simpa using hne
+    refine ⟨_, rfl, hne', ?_⟩
+    intro nm c ss
+    exact beq_param_args_false hne'
+
+/-- … and it answers nothing when every drawn replacement reproduces the old argument
+    (`Box<Box<Foo>>`: the nested constructor re-instantiated to `Box<Foo>`) -/
+def boxC : Ty := tcon tcCls "Box" [tparam "T" 0 none] [anyT]
+example : irrelevantParam boxC [tconNew boxC [fooT]] [some (tconNew boxC [fooT])] = none := by decide
+example : (irrelevantParam boxC [tconNew boxC [fooT]] [some fooT]).map getName = some "Box<Foo>" := by decide
 
 end Heph.Props.C09
